@@ -19,6 +19,11 @@
 (*   f = "seg"    valid Bech32/Bech32m text: hrp a, version v, program d,     *)
 (*                checksum constant w ("bech32" / "bech32m")                  *)
 (*   f = "segbad" Bech32-like text with a wrong checksum                      *)
+(*   f = "bech"   valid Bech32/Bech32m text (hrp a, data symbols d, constant  *)
+(*                w) that is NOT of the segwit shape: the data part is empty, *)
+(*                or what follows the first symbol does not regroup into      *)
+(*                bytes (BIP173: more than 4 or non-zero padding bits).  No   *)
+(*                entry point has a use for it: every one answers none        *)
 (*   f = "colon"  tag a, ':', rest; w = "hex" (rest is hex for bytes d) or    *)
 (*                "nothex"; w2 = "utf8" (d2 = UTF-8 bytes of rest) / "noutf8" *)
 (*   f = "num"    a plain numeral of v digits; w = "dec" (all digits decimal: *)
@@ -191,9 +196,17 @@ Combine(sets) ==
   ELSE IF objs = {} THEN {ONone}
   ELSE objs \cup (IF \A s \in sets : ONone \in s THEN {ONone} ELSE {})
 
+\* Groestlcoin family in this sandbox (stub = TRUE, limitation L3): its Base58Check texts carry a groestl
+\* checksum that cannot be computed here, and pycoin disables its catch-all parsers.  What CAN be said
+\* without the library: a text whose checksum is valid under double-SHA256 is not a Groestlcoin text
+\* (a coincidental groestl match has probability 2^-32 per text), so for T.f = "b58c" the ordinary rules
+\* apply - IsB58 fails because T.w # N.chk - and every entry point answers none, whatever was parsed
+\* before.  For the other forms the answers of a stubbed network are left open (the call must not raise).
+\* Out never looks at anything but (N, e, T): an answer does not depend on what the same text object was
+\* asked before, by this or by another network (history independence of a shared parseable_str).
 RECURSIVE Out(_, _, _)
 Out(N, e, T) ==
-  IF N.stub \/ T.f = "junk" THEN {OAny}          \* L3: Groestlcoin text layer is disabled here; junk: totality only
+  IF T.f = "junk" \/ (N.stub /\ T.f # "b58c") THEN {OAny}
   ELSE IF IsComposite(e) THEN Combine({Out(N, Dispatch(e)[i], T) : i \in DOMAIN Dispatch(e)})
   ELSE Base(N, e, T)
 
